@@ -378,6 +378,23 @@ theorem deleteNodesWithTag_spec (s : St) (n : Nat) (t : Str) (hn : n < s.heap.le
   rw [if_pos hok]
   exact deleteKidsWithTag_abs s hn t
 
+open Gedcom.CacheEff in
+/-- **Obligation**: the body of `DeleteNodesWithTag` (go/ast, `Generated.deleteNodesWithTagLoop`) is a
+    loop over a *copy* of the child list, tests the tag, and calls `DeleteNode` on the loop variable —
+    nothing else. -/
+theorem deleteNodesWithTag_translated :
+    Generated.deleteNodesWithTagLoop = ⟨.copyOfKids, .tagIs, [.deleteNodeCall]⟩ := by decide
+
+/-- **The model's `DeleteNodesWithTag` is that loop**, run with the model's own `DeleteNode` step (which
+    `step_is_source` in turn derives from the statements of the `DeleteNode` bodies): the closed form
+    the machine executes and the source's call sequence reach the same state, caches included. -/
+theorem deleteNodesWithTag_is_source (s : St) (n : Nat) (t : Str) (hn : n < s.heap.length) :
+    CacheEff.runTagLoop Cache.flags Generated.deleteNodesWithTagLoop n t s =
+      some (exec Cache.flags s (.deleteNodesWithTag n t)).1 := by
+  rw [deleteNodesWithTag_translated, flags_eq]
+  show some (deleteLoop _ n t s) = some (deleteKidsWithTag _ n t s)
+  rw [deleteKidsWithTag_is_loop s hn t]
+
 /-- … and no view returns a removed node: with whatever was cached before, the children-by-tag
     lookup for that tag answers the empty list right after the call. -/
 theorem deleted_by_tag_not_viewed (s : St) (n : Nat) (t : Str) (h : Inv s) (hn : n < s.heap.length) :
